@@ -26,3 +26,13 @@ META["C06"] = dict(
     level_note=("Trusted: the per-format marker reading stated in DESIGN.md (no marker assertion for formats that define none); for MPEG-4 audio "
                 "and AC-3 the marker is compared with where the library decoder completes a group."),
 )
+
+META["C07"] = dict(
+    design_ref="DESIGN.md section 4, C07",
+    technique="property-based fault injection (rapid): generated encoded streams x generated drop/dup/reorder fault lists, history invariant over Decode outputs against a clean reference decode",
+    level_text=("Exploration: thousands of generated (stream, fault list) pairs per stateful decoder per run; the oracle is a whole-history invariant "
+                "(every protected frame returned intact, exactly once, inside its window) that no per-vector test expresses. Damage patterns are sampled, "
+                "not enumerated; the thorough tier adds longer streams."),
+    level_note=("Trusted: the cleanliness definition (conservative: a foreign packet anywhere before/after in the wrong direction marks a frame unclean, "
+                "so obligations are never invented), the C03-verified clean decode used as reference output."),
+)
